@@ -2,13 +2,13 @@
 //! entropy source), with its query pool, its float-operand-magnitude model and, for composites, the
 //! oracle through the parts.
 
-use crate::sweep::{build_store, sweep, NoView, Only, Rep, Spec};
+use crate::sweep::{build_store, sweep, Cell, NoView, Only, Rep, Spec};
 use linfa::composing::platt_scaling::Platt;
 use linfa::composing::{MultiClassModel, MultiTargetModel};
 use linfa::prelude::*;
 use linfa::traits::PredictInplace;
 use linfa::Dataset;
-use ndarray::{Array1, Array2, ArrayView2};
+use ndarray::{Array1, Array2, ArrayView1, ArrayView2};
 use rand_xoshiro::rand_core::SeedableRng;
 use rand_xoshiro::Xoshiro256Plus;
 use std::cell::RefCell;
@@ -121,6 +121,7 @@ fn kmeans(a: &Args, rep: &mut Rep) -> Result<(), String> {
         d.sort_by(|a, b| a.partial_cmp(b).unwrap());
         (d[1] - d[0], d[1])
     }));
+    sp.row_form = Some(Box::new(|v| Cell::U(Predict::<&ArrayView1<f64>, usize>::predict(&m, &v) as u64)));
     sweep::<Array1<usize>, _, _>(&sp, &m, Some(&m), &store, None, rep);
     Ok(())
 }
@@ -334,6 +335,7 @@ fn svm_c_bool_gaussian(a: &Args, rep: &mut Rep) -> Result<(), String> {
     let store = build_store(&pool, a.max_len, &a.only);
     let mut sp = spec("svm_c_bool_gaussian", a, &pool);
     sp.margin = Some(svm_margin(&m));
+    sp.row_form = Some(Box::new(|v| Cell::U(Predict::<ArrayView1<f64>, bool>::predict(&m, v) as u64)));
     sweep::<Array1<bool>, _, _>(&sp, &m, Some(&m), &store, None, rep);
     Ok(())
 }
@@ -352,6 +354,7 @@ fn svm_bool_linear_poly(a: &Args, rep: &mut Rep) -> Result<(), String> {
     let store = build_store(&pool, a.max_len, &a.only);
     let mut sp = spec("svm_bool_linear_poly", a, &pool);
     sp.margin = Some(svm_margin(&m));
+    sp.row_form = Some(Box::new(|v| Cell::U(Predict::<ArrayView1<f64>, bool>::predict(&m, v) as u64)));
     sweep::<Array1<bool>, _, _>(&sp, &m, Some(&m), &store, None, rep);
     Ok(())
 }
@@ -370,6 +373,7 @@ fn svm_probability(a: &Args, rep: &mut Rep) -> Result<(), String> {
     let mut sp = spec("svm_probability", a, &pool);
     sp.eps = f32::EPSILON as f64;
     sp.scale = Box::new(|_, _, _| 1.0);
+    sp.row_form = Some(Box::new(|v| Cell::F(*Predict::<ArrayView1<f64>, Pr>::predict(&m, v) as f64)));
     sweep::<Array1<Pr>, _, _>(&sp, &m, Some(&m), &store, None, rep);
     Ok(())
 }
@@ -395,6 +399,7 @@ fn svm_regression_linear(a: &Args, rep: &mut Rep) -> Result<(), String> {
     };
     let rho = m.rho;
     sp.scale = Box::new(move |row, _c, o| row.iter().map(|v| v.abs()).sum::<f64>() * wmax + rho.abs() + o.abs());
+    sp.row_form = Some(Box::new(|v| Cell::F(Predict::<ArrayView1<f64>, f64>::predict(&m, v))));
     sweep::<Array1<f64>, _, _>(&sp, &m, Some(&m), &store, None, rep);
     Ok(())
 }
@@ -411,6 +416,7 @@ fn svm_regression_gaussian(a: &Args, rep: &mut Rep) -> Result<(), String> {
     let asum: f64 = m.alpha.iter().map(|v| v.abs()).sum();
     let rho = m.rho;
     sp.scale = Box::new(move |_row, _c, o| asum + rho.abs() + o.abs());
+    sp.row_form = Some(Box::new(|v| Cell::F(Predict::<ArrayView1<f64>, f64>::predict(&m, v))));
     sweep::<Array1<f64>, _, _>(&sp, &m, Some(&m), &store, None, rep);
     Ok(())
 }
@@ -424,6 +430,7 @@ fn svm_one_class(a: &Args, rep: &mut Rep) -> Result<(), String> {
     let store = build_store(&pool, a.max_len, &a.only);
     let mut sp = spec("svm_one_class", a, &pool);
     sp.margin = Some(svm_margin(&m));
+    sp.row_form = Some(Box::new(|v| Cell::U(Predict::<ArrayView1<f64>, bool>::predict(&m, v) as u64)));
     sweep::<Array1<bool>, _, _>(&sp, &m, Some(&m), &store, None, rep);
     Ok(())
 }
